@@ -317,3 +317,23 @@ fn c09_config_persist_big_siblings() {
     persist_laws(c, false);
 }
 
+
+// ---- reload of the aborted set at open: concrete bitmap, the real 8192-iteration scan ---------------------------
+// (symbolic data would make every iteration a conditional Vec push; with a concrete bitmap CBMC simply executes the loop)
+// @obl harness=c09_reload_concrete id=C09.aborted_reload[concrete ids 0,7,8,1023,4095,8191] also=C02 tier=quick funcs="PageZeroHeader::get_aborted_transactions,PageZeroHeader::mark_transaction_aborted" bounds="zeroed header, ids {0,7,8,1023,4095,8191} marked (first/last bit of a byte, first/last byte): the scan returns exactly these, ascending" unwind=8195 native=c09_aborted_reload
+#[kani::proof]
+#[kani::unwind(8195)]
+fn c09_reload_concrete() {
+    let mut h: PageZeroHeader = unsafe { std::mem::zeroed() };
+    h.mark_transaction_aborted(0);
+    h.mark_transaction_aborted(7);
+    h.mark_transaction_aborted(8);
+    h.mark_transaction_aborted(1023);
+    h.mark_transaction_aborted(4095);
+    h.mark_transaction_aborted(8191);
+    let got = h.get_aborted_transactions();
+    kani::cover!(true, "reach");
+    let ok = got.len() == 6 && got[0] == 0 && got[1] == 7 && got[2] == 8 && got[3] == 1023 && got[4] == 4095 && got[5] == 8191;
+    assert!(ok, "reload_scan_returns_exactly_the_marked_ids");
+    std::mem::forget(got);
+}
